@@ -1,9 +1,155 @@
 package main
 
 import (
+	"fmt"
+	"sort"
+	"strings"
+
 	"github.com/nalgeon/redka"
 	"github.com/nalgeon/redka/verifhook"
+	"verif/harness/hx"
 )
 
 func hxTx(tx *redka.Tx) verifhook.Redka { return verifhook.Tx(tx) }
 func hxDB(db *redka.DB) verifhook.Redka { return verifhook.DB(db) }
+
+// kindOf names the code path a step exercises: the operation (with the variant of the
+// multi-key algebra / store operations), or a caller-managed transaction.
+func kindOf(st *hx.Step) string {
+	if st.Block {
+		return fmt.Sprintf("TX%d", len(st.Ops))
+	}
+	op := st.Ops[0]
+	k := op.Name
+	switch op.Name {
+	case "ZAlg", "ZStore":
+		f := strings.Fields(op.Tok)
+		if len(f) > 1 {
+			k += ":" + f[1]
+		}
+	}
+	return k
+}
+
+// opCase is an operation under test with the steps that build its pre-state.
+type opCase struct {
+	Hist   *hx.History
+	Prefix []*hx.Step
+	Target *hx.Step
+	Rest   []*hx.Step
+	Kind   string
+}
+
+// casePool indexes, by kind, the eligible steps of a few hundred seeded histories (generated
+// without touching a database), so that every kind of write operation the generators can produce
+// is put under test, each time in a different pre-state.
+type casePool struct {
+	kinds []string
+	occ   map[string][]opCase
+	next  map[string]int
+	// Ops lists every eligible single-operation step's operation, by operation name
+	Ops map[string][]*hx.Op
+}
+
+func newCasePool(seed int64, profiles []string, perProfile int, tweak func(*hx.Profile), ok func(*hx.Step) bool) *casePool {
+	p := &casePool{occ: map[string][]opCase{}, next: map[string]int{}, Ops: map[string][]*hx.Op{}}
+	for i, name := range profiles {
+		prof := hx.Profiles[name]
+		if tweak != nil {
+			tweak(&prof)
+		}
+		g := hx.NewGen(seed+int64(i)*1000, prof)
+		for hid := 0; hid < perProfile; hid++ {
+			h := g.History(i*100000 + hid)
+			for j := 1; j < len(h.Steps); j++ {
+				st := h.Steps[j]
+				if st.Gen != nil || !ok(st) {
+					continue
+				}
+				var prefix, rest []*hx.Step
+				for _, s := range h.Steps[:j] {
+					if s.Gen == nil {
+						prefix = append(prefix, s)
+					}
+				}
+				for _, s := range h.Steps[j+1:] {
+					if s.Gen == nil {
+						rest = append(rest, s)
+					}
+				}
+				k := kindOf(st)
+				p.occ[k] = append(p.occ[k], opCase{Hist: h, Prefix: prefix, Target: st, Rest: rest, Kind: k})
+				if !st.Block {
+					p.Ops[st.Ops[0].Name] = append(p.Ops[st.Ops[0].Name], st.Ops[0])
+				}
+			}
+		}
+	}
+	for k := range p.occ {
+		p.kinds = append(p.kinds, k)
+	}
+	sort.Strings(p.kinds)
+	return p
+}
+
+// Take returns the next unused occurrence of the kind.
+func (p *casePool) Take(kind string) (opCase, bool) {
+	i := p.next[kind]
+	if i >= len(p.occ[kind]) {
+		return opCase{}, false
+	}
+	p.next[kind] = i + 1
+	return p.occ[kind][i], true
+}
+
+// opCases takes n cases round-robin over the kinds.
+func opCases(seed int64, n int, profiles []string, tweak func(*hx.Profile), ok func(*hx.Step) bool, covered map[string]int) []opCase {
+	p := newCasePool(seed, profiles, 40, tweak, ok)
+	var out []opCase
+	for round := 0; len(out) < n && round < 40; round++ {
+		for _, k := range p.kinds {
+			if len(out) >= n {
+				break
+			}
+			if c, found := p.Take(k); found {
+				covered[k]++
+				out = append(out, c)
+			}
+		}
+	}
+	return out
+}
+
+// coverageCounters records which kinds were put under test.
+func coverageCounters(prefix string, covered map[string]int) {
+	var ks []string
+	for k := range covered {
+		ks = append(ks, k)
+	}
+	sort.Strings(ks)
+	for _, k := range ks {
+		sum.Counters[prefix+k] += covered[k]
+	}
+	sum.Counters[prefix+"kinds"] = len(ks)
+}
+
+// runOpDB runs one operation at DB level and returns its result text.
+func runOpDB(x *hx.Exec, op *hx.Op) string {
+	var res hx.Res
+	if op.RunDB != nil {
+		res = op.RunDB(x.DB, x, op)
+	} else {
+		res = op.Run(hxDB(x.DB), x, op)
+	}
+	return res.String()
+}
+
+func describeOps(ops ...*hx.Op) string {
+	var p []string
+	for _, o := range ops {
+		p = append(p, o.Tok)
+	}
+	return fmt.Sprint(strings.Join(p, " ; "))
+}
+
+var allFamilies = []string{"mixed", "list", "set", "zset", "hash", "str", "key"}
